@@ -574,9 +574,8 @@ func c10ReadAll(fx *c10Fixture, dir string, focus []string, allocLimitMB int64, 
 		mu.Lock()
 		defer mu.Unlock()
 		total++
-		if h, ok := checkChunk("IterateAllChunks", ch.Hash(), ch.Data(), fx.Store == "journal"); ok {
-			seen[h]++
-		}
+		h, _ := checkChunk("IterateAllChunks", ch.Hash(), ch.Data(), fx.Store == "journal")
+		seen[h]++ // delivered (a delivery with wrong bytes is already one defect: wrong-bytes)
 	})
 	if err != nil {
 		noteErr("IterateAllChunks", err)
